@@ -349,9 +349,29 @@ pub struct EmbedCase {
     pub layout: u8,
 }
 
+/// A field whose `Serialize` impl customises what the template engine sees (the use
+/// `serializing_for_value()` is documented for): while the outer conversion is running it
+/// converts its payload to a `Value` of its own and serializes that.
+struct Reentrant {
+    active: bool,
+    payload: Vec<Value>,
+}
+
+impl Serialize for Reentrant {
+    fn serialize<S: serde::Serializer>(&self, s: S) -> Result<S::Ok, S::Error> {
+        if self.active && minijinja::value::serializing_for_value() {
+            let converted = Value::from(Serde(&self.payload));
+            converted.serialize(s)
+        } else {
+            self.payload.serialize(s)
+        }
+    }
+}
+
 #[derive(Serialize)]
 struct Holder {
     before: u8,
+    pre: Reentrant,
     v: Value,
     list: Vec<Value>,
     map: BTreeMap<String, Value>,
@@ -430,6 +450,7 @@ impl Part for Embedded {
         let first = made[0].0.clone();
         let inner = Holder {
             before: 1,
+            pre: Reentrant { active: c.layout & 8 == 8, payload: vec![] },
             v: made.last().unwrap().0.clone(),
             list: vec![],
             map: BTreeMap::new(),
@@ -439,6 +460,7 @@ impl Part for Embedded {
         };
         let holder = Holder {
             before: c.layout,
+            pre: Reentrant { active: c.layout & 4 == 4, payload: made.iter().map(|x| x.0.clone()).collect() },
             v: first.clone(),
             list: made.iter().map(|x| x.0.clone()).collect(),
             map: made
@@ -461,6 +483,13 @@ impl Part for Embedded {
             }
             Err(e) => v.set_fail("embedded_value_err", format!("{what}: {e}")),
         };
+        if c.layout & 4 == 4 {
+            v.labels.push("nested_conversion_before_values");
+        }
+        let pre = value.get_attr("pre").unwrap_or_default();
+        for (i, m) in made.iter().enumerate() {
+            check(&format!("pre[{i}]"), m, pre.get_item(&Value::from(i)), &mut v);
+        }
         check("field v", &made[0], value.get_attr("v"), &mut v);
         if value.get_attr("before").ok() != Some(Value::from(c.layout)) || value.get_attr("after").ok() != Some(Value::from("out")) {
             v.set_fail("embedded_neighbour_changed", format!("plain fields next to the value changed: {value:?}"));
@@ -728,7 +757,7 @@ impl Part for ToJson {
 crate::declare_parts!(RoundTrip, Embedded, ToJson);
 
 pub fn run(ctx: &mut Ctx) {
-    ctx.rule = "round trip: shape trees (depth <= 5) instantiated through an enum covering every serde variant/struct shape (unit/newtype/tuple/struct variants, structs, newtype/tuple/unit structs, options, sequences, tuples, maps keyed by string/int/u64/bool/char/tuple, byte strings, f32/f64 by bit pattern, chars and strings incl. control characters, U+2028/9, HTML metacharacters, the value-handle marker text); T::deserialize(Value::from(Serde(&x))) must equal x through both the by-value and by-reference deserializer. Embedded values: structs holding Value fields (safe strings, undefined, none, dynamic objects, nested lists) must expose the very same values after conversion. tojson: generated value trees (depth <= 3, all representations, maps with scalar and unrepresentable keys) rendered with tojson (with/without indent, .txt/.html) and JSON auto-escaping; output parsed by an independent strict RFC 8259 parser and compared. Non-trivial: depth >= 2 with an enum variant / non-string-keyed map; embedded: >= 2 values; tojson: a string needing an escape inside a container. Distinct by encoded case.".into();
+    ctx.rule = "round trip: shape trees (depth <= 5) instantiated through an enum covering every serde variant/struct shape (unit/newtype/tuple/struct variants, structs, newtype/tuple/unit structs, options, sequences, tuples, maps keyed by string/int/u64/bool/char/tuple, byte strings, f32/f64 by bit pattern, chars and strings incl. control characters, U+2028/9, HTML metacharacters, the value-handle marker text); T::deserialize(Value::from(Serde(&x))) must equal x through both the by-value and by-reference deserializer. Embedded values: structs holding Value fields (safe strings, undefined, none, dynamic objects, nested lists) must expose the very same values after conversion, also when a field's Serialize impl runs a nested Value conversion of its own (the serializing_for_value() pattern) before them. tojson: generated value trees (depth <= 3, all representations, maps with scalar and unrepresentable keys) rendered with tojson (with/without indent, .txt/.html) and JSON auto-escaping; output parsed by an independent strict RFC 8259 parser and compared. Non-trivial: depth >= 2 with an enum variant / non-string-keyed map; embedded: >= 2 values; tojson: a string needing an escape inside a container. Distinct by encoded case.".into();
     ctx.assumptions = vec![
         "model/json.rs is a correct strict JSON parser (unit tested)".into(),
         "floats are compared by bit pattern (all NaNs alike); -0.0 must keep its sign through JSON".into(),
